@@ -282,16 +282,10 @@ def rule_R02_5(ctx):
 
 def run(ctx):
     rs = [rule_R02_1(ctx), rule_R02_2(ctx)]
-    try:
-        import units
-        rs.append(units.rule_units(ctx, "R02.3"))
-    except ImportError:
-        pass
-    try:
-        import guards
-        rs.append(guards.rule_sites(ctx, "R02.4"))
-    except ImportError:
-        pass
+    import units
+    rs.append(units.rule_units(ctx, "R02.3"))
+    import sites
+    rs.append(sites.rule_sites(ctx, "R02.4"))
     rs.append(rule_R02_5(ctx))
     return rs
 
